@@ -1393,6 +1393,77 @@ def shift_vars(e, k):
         return ('OPSET', e[1], e[2] + k) + tuple(shift_vars(x, k) if isinstance(x, tuple) else x for x in e[3:])
     return tuple(shift_vars(x, k) if isinstance(x, tuple) else x for x in e)
 
+def object_program(final, leaves, name):
+    """C text of one translation unit: test n initialises v0..v2, `struct LS0 s`, `a[4]`, p = &s, q = a + 1, evaluates t['c'] and prints
+    value, sizeof and every object"""
+    leaves_c = [pth for pth, _, _ in leaves]
+    body = ''
+    for n, t in enumerate(final):
+        decl = ''.join(f'  {CNAME[ty]} v{k} = ({CNAME[ty]}){clit(v)};\n' for k, (ty, v) in enumerate(zip(t['vt'], t['vals'][:3])))
+        decl += '  struct LS0 s;\n' + ''.join(f'  s.{pth} = ({CNAME[ty]}){clit(v)};\n'
+                                               for (pth, _, ty), v in zip(leaves, t['vals'][3:3 + len(leaves)]))
+        av = t['vals'][3 + len(leaves):]
+        decl += f"  {CNAME[t['et']]} a[4]; " + ' '.join(f"a[{k}] = ({CNAME[t['et']]}){clit(v)};" for k, v in enumerate(av)) + '\n'
+        decl += f"  struct LS0 *p = &s; {CNAME[t['et']]} *q = a + 1;\n"
+        ex = t['c']
+        body += (f'static void t{n}(void) {{\n{decl}  unsigned long r = (unsigned long)({ex});\n  int sz = (int)sizeof({ex});\n'
+                 f'  printf("{n} %lu %d", r, sz);\n'
+                 + ''.join(f'  printf(" %lu", (unsigned long)v{k});\n' for k in range(3))
+                 + ''.join(f'  printf(" %lu", (unsigned long)s.{pth});\n' for pth in leaves_c)
+                 + ''.join(f'  printf(" %lu", (unsigned long)a[{k}]);\n' for k in range(4))
+                 + '  printf("\\n");\n}\n')
+    main = 'int main(void) {\n' + ''.join(f'  t{n}();\n' for n in range(len(final))) + '  return 0;\n}\n'
+    return 'int printf(const char *, ...);\n' + PRELUDE.split('\n', 2)[2] + lv_struct_decls() + body + main
+
+def run_object_batch(ctx, batch, leaves, name):
+    src = os.path.join(ctx.scratch, name + '.c')
+    open(src, 'w').write(object_program(batch, leaves, name))
+    rc_c = compile_run([ctx.cc, '-o', src + '.chibi', src], src + '.chibi')
+    rc_g = compile_run(['gcc', '-std=c11', '-w', '-O0', '-o', src + '.gcc', src], src + '.gcc')
+    for pth in (src + '.chibi', src + '.gcc'):
+        if os.path.exists(pth):
+            os.unlink(pth)
+    return rc_c, rc_g, src
+
+def run_object_programs(ctx, corr, final, leaves, name, count_label, key, what, spec_note):
+    """compile and run the tests in batches with chibicc and gcc, compare with t['want'] three ways.  gcc 12 has internal compiler
+    errors on a few constant-foldable forms: the offending test is isolated by bisection and dropped (counted)."""
+    B = 1000
+    batches = [final[i:i + B] for i in range(0, len(final), B)]
+    for bi, b in enumerate(batches):
+        rc_c, rc_g, src = run_object_batch(ctx, b, leaves, f'{name}{bi}')
+        tries = 0
+        while rc_g[0] is None and tries < 6 and len(b) > 1:
+            lo = list(b)
+            while len(lo) > 1:
+                half = lo[:len(lo) // 2]
+                _, g2, _ = run_object_batch(ctx, half, leaves, f'{name}iso')
+                lo = half if g2[0] is None else lo[len(lo) // 2:]
+            corr.count('skipped_gcc_internal_error')
+            ctx.notes.append('gcc failed on: ' + lo[0]['c'] + ' :: ' + str(rc_g[1])[:120])
+            b = [t for t in b if t is not lo[0]]
+            rc_c, rc_g, src = run_object_batch(ctx, b, leaves, f'{name}{bi}r{tries}')
+            tries += 1
+        if rc_g[0] is None:
+            corr.disagreements.append({'kind': 'gcc', 'note': f'gcc rejected the {name} program: ' + str(rc_g[1])})
+            return
+        if rc_c[0] is None:
+            corr.violations.append({'what': f'chibicc fails on the {name} program', 'input': object_program(b, leaves, name)[:1500],
+                                    'expected': 'compiles', 'got': rc_c[1]})
+            return
+        for n, t in enumerate(b):
+            corr.evaluations += 1
+            corr.count(count_label)
+            desc = (f"{'; '.join(f'{CNAME[ty]} v{k} = {v}' for k, (ty, v) in enumerate(zip(t['vt'], t['vals'][:3])))}; struct LS0 s, "
+                    f"{CNAME[t['et']]} a[4] (values {t['vals'][3:]}), p = &s, q = a + 1: {t['c']}")
+            corr.nontrivial.add(key + hashlib.sha1(desc.encode()).hexdigest())
+            if rc_g[0].get(n) != t['want']:
+                corr.disagreements.append({'kind': 'spec-vs-gcc', 'input': desc, 'spec': t['want'], 'gcc': rc_g[0].get(n), 'note': spec_note})
+                return
+            if rc_c[0].get(n) != t['want']:
+                corr.violations.append({'what': what, 'input': desc, 'expected': t['want'], 'got': rc_c[0].get(n)})
+                return
+
 def run_lvalue_oracle(ctx, corr, N):
     """`s.m…`, `p->m…`, `(*p).m`, `a[i]`, `q[i]`, `*q`, `*(q + i)` read, assigned and compound-assigned at the root of an
     expression, three ways.  Every scalar object (the scalars v0..v2, the 12 leaves of `struct LS0 s`, the elements of `a[4]`) is a
@@ -1477,59 +1548,18 @@ def run_lvalue_oracle(ctx, corr, N):
         w = o.split()
         t['want'] = [str(int(w[2]) & M64), str(SIZE[w[1]])] + [str(int(x) & M64) for x in w[3].split(',')]
         final.append(t)
-    leaves_c = [pth for pth, _, _ in leaves]
-    body = ''
-    for n, t in enumerate(final):
-        decl = ''.join(f'  {CNAME[ty]} v{k} = ({CNAME[ty]}){clit(v)};\n' for k, (ty, v) in enumerate(zip(t['vt'], t['vals'][:3])))
-        decl += '  struct LS0 s;\n' + ''.join(f'  s.{pth} = ({CNAME[ty]}){clit(v)};\n'
-                                               for (pth, _, ty), v in zip(leaves, t['vals'][3:3 + len(leaves)]))
-        av = t['vals'][3 + len(leaves):]
-        decl += f"  {CNAME[t['et']]} a[4]; " + ' '.join(f"a[{k}] = ({CNAME[t['et']]}){clit(v)};" for k, v in enumerate(av)) + '\n'
-        decl += f"  struct LS0 *p = &s; {CNAME[t['et']]} *q = a + 1;\n"
+    for t in final:
         lvc = t['ctext'] % rc(t['ie'], t['vt']) if '%s' in t['ctext'] else t['ctext']
         if t['form'] == 0:
-            ex = lvc
+            t['c'] = lvc
         elif t['form'] == 1:
-            ex = f"{lvc} = {rc(t['e'], t['vt'])}"
+            t['c'] = f"{lvc} = {rc(t['e'], t['vt'])}"
         else:
-            ex = f"{lvc} {CBIN[t['op']]}= {rc(t['e'], t['vt'])}"
-        t['c'] = ex
-        body += (f'static void t{n}(void) {{\n{decl}  unsigned long r = (unsigned long)({ex});\n  int sz = (int)sizeof({ex});\n'
-                 f'  printf("{n} %lu %d", r, sz);\n'
-                 + ''.join(f'  printf(" %lu", (unsigned long)v{k});\n' for k in range(3))
-                 + ''.join(f'  printf(" %lu", (unsigned long)s.{pth});\n' for pth in leaves_c)
-                 + ''.join(f'  printf(" %lu", (unsigned long)a[{k}]);\n' for k in range(4))
-                 + '  printf("\\n");\n}\n')
-    main = 'int main(void) {\n' + ''.join(f'  t{n}();\n' for n in range(len(final))) + '  return 0;\n}\n'
-    src = os.path.join(ctx.scratch, 'lvoracle.c')
-    open(src, 'w').write('int printf(const char *, ...);\n' + PRELUDE.split('\n', 2)[2] + lv_struct_decls() + body + main)
-    rc_c = compile_run([ctx.cc, '-o', src + '.chibi', src], src + '.chibi')
-    rc_g = compile_run(['gcc', '-std=c11', '-w', '-O0', '-o', src + '.gcc', src], src + '.gcc')
-    for pth in (src + '.chibi', src + '.gcc'):
-        if os.path.exists(pth):
-            os.unlink(pth)
-    if rc_g[0] is None:
-        corr.disagreements.append({'kind': 'gcc', 'note': 'gcc rejected the lvalue program: ' + str(rc_g[1])})
-        return
-    if rc_c[0] is None:
-        corr.violations.append({'what': 'chibicc fails on the lvalue program', 'input': open(src).read()[:1500], 'expected': 'compiles',
-                                'got': rc_c[1]})
-        return
-    for n, t in enumerate(final):
-        corr.evaluations += 1
-        corr.count('lvalue-oracle')
-        desc = (f"{'; '.join(f'{CNAME[ty]} v{k} = {v}' for k, (ty, v) in enumerate(zip(t['vt'], t['vals'][:3])))}; struct LS0 s, "
-                f"{CNAME[t['et']]} a[4] (values {t['vals'][3:]}), p = &s, q = a + 1: {t['c']}")
-        corr.nontrivial.add('lvo:' + hashlib.sha1(desc.encode()).hexdigest())
-        if rc_g[0].get(n) != t['want']:
-            corr.disagreements.append({'kind': 'spec-vs-gcc', 'input': desc, 'spec': t['want'], 'gcc': rc_g[0].get(n),
-                                       'note': 'lvalue root form: Spec (subscript first, then SET / OPSET on the designated object) disagrees with gcc'})
-            return
-        if rc_c[0].get(n) != t['want']:
-            corr.violations.append({'what': 'member / subscript / dereference lvalue read, assigned or compound-assigned: chibicc differs from C11 '
-                                            '(fields: value mod 2^64, sizeof, v0..v2, the 12 scalar members of s, a[0..3] afterwards)',
-                                    'input': desc, 'expected': t['want'], 'got': rc_c[0].get(n)})
-            return
+            t['c'] = f"{lvc} {CBIN[t['op']]}= {rc(t['e'], t['vt'])}"
+    run_object_programs(ctx, corr, final, leaves, 'lvoracle', 'lvalue-oracle', 'lvo:',
+                        'member / subscript / dereference lvalue read, assigned or compound-assigned: chibicc differs from C11 '
+                        '(fields: value mod 2^64, sizeof, v0..v2, the 12 scalar members of s, a[0..3] afterwards)',
+                        'lvalue root form: Spec (subscript first, then SET / OPSET on the designated object) disagrees with gcc')
 
 # ------------------------------------------------------------------ leg (b5): lvalues other than variables anywhere in an expression
 
@@ -1729,53 +1759,12 @@ def run_lvalue_nests(ctx, corr, N):
         w = o.split()
         t['want'] = [str(int(w[2]) & M64), str(SIZE[w[1]])] + [str(int(x) & M64) for x in w[3].split(',')]
         final.append(t)
-    leaves_c = [pth for pth, _, _ in leaves]
-    body = ''
-    for n, t in enumerate(final):
-        decl = ''.join(f'  {CNAME[ty]} v{k} = ({CNAME[ty]}){clit(v)};\n' for k, (ty, v) in enumerate(zip(t['vt'], t['vals'][:3])))
-        decl += '  struct LS0 s;\n' + ''.join(f'  s.{pth} = ({CNAME[ty]}){clit(v)};\n'
-                                               for (pth, _, ty), v in zip(leaves, t['vals'][3:3 + len(leaves)]))
-        av = t['vals'][3 + len(leaves):]
-        decl += f"  {CNAME[t['et']]} a[4]; " + ' '.join(f"a[{k}] = ({CNAME[t['et']]}){clit(v)};" for k, v in enumerate(av)) + '\n'
-        decl += f"  struct LS0 *p = &s; {CNAME[t['et']]} *q = a + 1;\n"
-        ex = sub_names(rc(t['e'], t['tys']), t['names'])
-        t['c'] = ex
-        body += (f'static void t{n}(void) {{\n{decl}  unsigned long r = (unsigned long)({ex});\n  int sz = (int)sizeof({ex});\n'
-                 f'  printf("{n} %lu %d", r, sz);\n'
-                 + ''.join(f'  printf(" %lu", (unsigned long)v{k});\n' for k in range(3))
-                 + ''.join(f'  printf(" %lu", (unsigned long)s.{pth});\n' for pth in leaves_c)
-                 + ''.join(f'  printf(" %lu", (unsigned long)a[{k}]);\n' for k in range(4))
-                 + '  printf("\\n");\n}\n')
-    main = 'int main(void) {\n' + ''.join(f'  t{n}();\n' for n in range(len(final))) + '  return 0;\n}\n'
-    src = os.path.join(ctx.scratch, 'lvnests.c')
-    open(src, 'w').write('int printf(const char *, ...);\n' + PRELUDE.split('\n', 2)[2] + lv_struct_decls() + body + main)
-    rc_c = compile_run([ctx.cc, '-o', src + '.chibi', src], src + '.chibi')
-    rc_g = compile_run(['gcc', '-std=c11', '-w', '-O0', '-o', src + '.gcc', src], src + '.gcc')
-    for pth in (src + '.chibi', src + '.gcc'):
-        if os.path.exists(pth):
-            os.unlink(pth)
-    if rc_g[0] is None:
-        corr.disagreements.append({'kind': 'gcc', 'note': 'gcc rejected the lvalue-nest program: ' + str(rc_g[1])})
-        return
-    if rc_c[0] is None:
-        corr.violations.append({'what': 'chibicc fails on the lvalue-nest program', 'input': open(src).read()[:1500], 'expected': 'compiles',
-                                'got': rc_c[1]})
-        return
-    for n, t in enumerate(final):
-        corr.evaluations += 1
-        corr.count('lvalue-nest-oracle')
-        desc = (f"{'; '.join(f'{CNAME[ty]} v{k} = {v}' for k, (ty, v) in enumerate(zip(t['vt'], t['vals'][:3])))}; struct LS0 s, "
-                f"{CNAME[t['et']]} a[4] (values {t['vals'][3:]}), p = &s, q = a + 1: {t['c']}")
-        corr.nontrivial.add('lvn:' + hashlib.sha1(desc.encode()).hexdigest())
-        if rc_g[0].get(n) != t['want']:
-            corr.disagreements.append({'kind': 'spec-vs-gcc', 'input': desc, 'spec': t['want'], 'gcc': rc_g[0].get(n),
-                                       'note': 'expression over member / subscript / dereference lvalues: Spec disagrees with gcc'})
-            return
-        if rc_c[0].get(n) != t['want']:
-            corr.violations.append({'what': 'expression over member / subscript / dereference lvalues: chibicc differs from C11 (fields: value '
-                                            'mod 2^64, sizeof, v0..v2, the 12 scalar members of s, a[0..3] afterwards)',
-                                    'input': desc, 'expected': t['want'], 'got': rc_c[0].get(n)})
-            return
+    for t in final:
+        t['c'] = sub_names(rc(t['e'], t['tys']), t['names'])
+    run_object_programs(ctx, corr, final, leaves, 'lvnests', 'lvalue-nest-oracle', 'lvn:',
+                        'expression over member / subscript / dereference lvalues: chibicc differs from C11 (fields: value '
+                        'mod 2^64, sizeof, v0..v2, the 12 scalar members of s, a[0..3] afterwards)',
+                        'expression over member / subscript / dereference lvalues: Spec disagrees with gcc')
 
 def rename_vars(e, pick):
     f = lambda i: pick[i]
